@@ -1,5 +1,5 @@
-\* C08/C15 quick bound: TXIDs 1..4, levels {0,1,2,9}, <= 3 files, file timestamps 1..2 (request timestamps 1..3).
-\* The runner rewrites `Part = 0` for every shard 0..Parts-1 (one TLC process each, several workers: Fanout).
+\* C08/C15 quick, timestamp requests T in 1..3: TXIDs 1..4, <= 3 files, file timestamps 1..2.
+\* The runner rewrites `Part = 0` for every shard 0..Parts-1 (one TLC process each; Fanout: several workers per process).
 SPECIFICATION Spec
 CONSTANTS
   N = 4
@@ -9,5 +9,6 @@ CONSTANTS
   Part = 0
   Parts = 1
   Fanout = TRUE
+  TsOnly = TRUE
 INVARIANTS Sound CompleteTx CompleteLatest GapReported FurthestLatest TsExcluded TsFurthest TsMonotone ErrKinds
 CHECK_DEADLOCK FALSE
